@@ -15,8 +15,9 @@ RULE = (
     "triples (t bound to T, s bound to S, candidate x) drawn from a pool of trees over tuple/list/dict/None "
     "(quick: all triples over a 12-tree pool; thorough: 24-tree pool + random depth-4 trees) x the forms "
     "'T', 'S T', 'T S', 'T ...', '... T', 'S T ...', '... S T', 'T T'; unbound names in composites; all "
-    "leaf types whose check rolls the context back inside the leaf loop (unions of array annotations) x pairs "
-    "of trees x four forms; structure strings of <=4 pieces over {T, S, ..., 1x, a.b} with whitespace variants at build time; "
+    "leaf types whose check rolls the context back inside the leaf loop (unions of array annotations) or WHILE THE TREE IS BEING FLATTENED "
+    "(a nested PyTree as first member of a union, failing at inner nodes) x pairs of trees x four forms; ten spellings of the composites with other separators; "
+    "leaf types whose values are containers or None; structure strings of <=4 pieces over {T, S, ..., 1x, a.b} with whitespace variants at build time; "
     "non-trivial = the candidate is neither identical to t nor a bare leaf; distinct by (t, s, x, form)"
 )
 TRUSTED = [
